@@ -63,7 +63,7 @@ let () =
 
 (* T2(d) per program: (t2derived PROGRAM REAL) with REAL = flat record | none | (err ExcName)
    -> "outside"  (not a single CrossBlock of simple / within-trial derived factors over simple factors)
-    | "guard=.. create=ok|ERR|ValueError flat=same|diff:FIELDS|na fails=same|diff|na doc=ok|unsupported|crash sem=same|diff:PARTS|na"
+    | "guard=.. create=ok|ERR|ValueError flat=same|diff:FIELDS|na fails=same|diff|na doc=ok|unsupported|crash sem=same|diff:PARTS|na [semb=true|false|na]"
    sem: as for t2plain, but the factor tables are compared per level as *sets* of the accepted entries
         without a None cell (the flat record lists them in cross-product order, doc_sem sorted by repr,
         and the documented else level also accepts "no value yet", which a within-trial window never reads): relation
@@ -113,7 +113,9 @@ let () =
               | DocSem.Ok ds -> (match sem_diff_t (CodeSem.code_sem fb) ds.DocSem.ds_sem with
                   | [] -> "same" | l -> "diff:" ^ Stdlib.String.concat "," l)
               | _ -> "na") in
-          gd ^ "create=ok flat=" ^ flats ^ " fails=" ^ fails ^ " doc=" ^ docs ^ " sem=" ^ sems))
+          (* the certified checker (Design/SemEqvTB.v sem_eqv_tb, sound by Properties/T2d.v T2d_checker_sound) *)
+          let semb = (match DerivedCheck.t2d_check p with Some true -> "true" | Some false -> "false" | None -> "na") in
+          gd ^ "create=ok flat=" ^ flats ^ " fails=" ^ fails ^ " doc=" ^ docs ^ " sem=" ^ sems ^ " semb=" ^ semb))
     | _ -> "!args")
 
 (* diagnostics: (t2dshow PROGRAM) -> code_sem of the created flat record | doc_sem *)
